@@ -160,6 +160,9 @@ func isRequestField(t *an.Term) (string, bool) {
 }
 
 func runC06(c *an.Ctx, p *an.Prog, thorough bool) {
+	// every refused request gets a status: the one library call on the request path that panics on attacker-chosen
+	// input (AEAD.Open with a nonce of the wrong length) is guarded
+	aeadOpenPrecondition(c, p, "C06.7")
 	roots := frontendRoots(p)
 	var handlers []Root
 	for _, r := range roots {
